@@ -405,6 +405,17 @@ func vRunC13(c *vCase) {
 		// loaded the way a request loads it: through the source's ConfigureProjectorsBases
 		src := &AnySource{}
 		src.processors = []*DataStreamProcessor{dsp}
+		if vChance(r, 0.3) {
+			// a model of the same shape and description, with other numbers, was loaded first (a model retrained into the same
+			// file): the one loaded last is the one in use
+			p0, b0 := make([]float64, nbases*n), make([]float64, n*nbases)
+			for i := range p0 {
+				p0[i], b0[i] = r.NormFloat64(), r.NormFloat64()
+			}
+			if err := src.ConfigureProjectorsBases(0, mat.NewDense(nbases, n, p0), mat.NewDense(n, nbases, b0), "verif"); err == nil {
+				c.Cov("models_replaced_by_one_of_the_same_shape_and_description", 1)
+			}
+		}
 		if err := src.ConfigureProjectorsBases(0, P, B, "verif"); err != nil {
 			c.Violate("c13:projectors-rejected", "SetProjectorsBasis rejected matrices of compatible shape %dx%d / %dx%d: %v", nbases, n, n, nbases, err)
 			return
